@@ -477,7 +477,7 @@ func runC07_11(c *core.Ctx) {
 	}
 	n := 0
 	for _, f := range v.funcs {
-		if !ast.IsExported(f.Obj.Name()) || nameOf(f.Obj) == "Start" {
+		if !f.Obj.Exported() || nameOf(f.Obj) == "Start" {
 			continue
 		}
 		const fRunning = 1
@@ -791,7 +791,7 @@ func runC07_13(c *core.Ctx) {
 	}
 	for _, f := range v.funcs {
 		rv := f.recvVar()
-		if rv == nil || !v.isConnPtr(rv.Type()) || !ast.IsExported(f.Obj.Name()) || f.Decl.Body == nil {
+		if rv == nil || !v.isConnPtr(rv.Type()) || !f.Obj.Exported() || f.Decl.Body == nil {
 			continue
 		}
 		sites := analyse(f, 0)
